@@ -1,22 +1,12 @@
-import Simpleline.Spec.MachineSpec
+import Simpleline.Spec.DispatchSpec
 
 namespace Simpleline.Dispatch
 open Simpleline
-
-/-- the queue store after `enqueue_signal` -/
-def enqQ (L : LoopSt) (s : Sig) : List EQueue :=
-  if L.forceQuit then L.queues else listSet L.queues (L.route s.src) (·.put s)
-
-/-- the trace event `enqueue_signal` adds -/
-def enqT (L : LoopSt) (s : Sig) : Tr :=
-  if L.forceQuit then .dropped s else .enq (L.route s.src) s
 
 theorem enqueue_eq (c : Cfg) (s : Sig) :
     c.enqueue s = { c with L := { c.L with queues := enqQ c.L s }, tr := enqT c.L s :: c.tr } := by
   unfold Cfg.enqueue enqQ enqT Cfg.trace
   split <;> rfl
-
-def renderSig (n : Nat) : Sig := { id := n + 1, cls := .render, prio := 0, src := .sched }
 
 theorem redraw_eq (c : Cfg) :
     c.redraw = { c with L := { c.L with queues := enqQ c.L (renderSig c.nextSid) },
@@ -24,9 +14,6 @@ theorem redraw_eq (c : Cfg) :
   unfold Cfg.redraw Cfg.newSig
   simp only [enqueue_eq]
   rfl
-
-def lineSig (c : Cfg) (r : Nat) : Sig :=
-  { id := c.nextSid + 1, cls := .inputReceived, prio := 0, src := .req r, line := c.A.stdin.headD [] }
 
 theorem deliver_eq {c c' : Cfg} (h : c.deliver = some c') :
     ∃ r rs, c.A.readers = r :: rs ∧
@@ -90,34 +77,6 @@ theorem emitLog_cases (P : Prog) (c : Cfg) (e : Ev) :
 
 
 /-! ### exceptions -/
-
-/-- the catchers of an ordinary exception, with the source the resulting `ExceptionSignal` carries -/
-def errCatch : Instr → Option Src
-  | .catchHandler => some .loop
-  | .catchPS => some .sched
-  | .catchDraw => some .sched
-  | .catchPI scr => some (.im scr)
-  | _ => none
-
-def isCatchExit : Instr → Bool
-  | .catchExit => true
-  | _ => false
-
-def notEndPI : Instr → Bool
-  | .endPI => false
-  | _ => true
-
-/-- where execution continues after catcher `ins` caught an exception (`rest` = what follows the catcher) -/
-def afterCatch : Instr → List Instr → List Instr
-  | .catchPI _, rest => (rest.dropWhile notEndPI).drop 1
-  | _, rest => rest
-
-def excSig (n : Nat) (src : Src) : Sig := { id := n + 1, cls := .exception, prio := -20, src := src }
-
-/-- the effect of a catcher on the state: one `ExceptionSignal` from `src` is enqueued -/
-def excEnq (c : Cfg) (src : Src) : Cfg :=
-  { c with L := { c.L with queues := enqQ c.L (excSig c.nextSid src) },
-           tr := enqT c.L (excSig c.nextSid src) :: c.tr, nextSid := c.nextSid + 1 }
 
 theorem unwind_sysexit (code : List Instr) (c : Cfg) :
     unwind .sysexit code c = .error (.killed 1, { c with code := [] }) := by
@@ -215,12 +174,6 @@ theorem unwind_ok {k : Kind} {code : List Instr} {c c' : Cfg} (h : unwind k code
     · rw [unwind_err_none hn] at h; cases h
     · subst h1; rw [unwind_err_catch h2 h3] at h; cases h; exact ⟨pre, ins, rest, src, rfl, h2, h3, rfl⟩
 
-/-- the outcome of an uncaught exception -/
-def failOutcome : Kind → Outcome
-  | .sysexit => .killed 1
-  | .exit => .raised "exit"
-  | .err => .raised "err"
-
 /-- a failed unwinding ends the run with empty code and otherwise unchanged state -/
 theorem unwind_error {k : Kind} {code : List Instr} {c c' : Cfg} {o : Outcome} (h : unwind k code c = .error (o, c')) :
     c' = { c with code := [] } ∧ o = failOutcome k := by
@@ -241,12 +194,6 @@ theorem afterCatch_suffix (ins : Instr) (rest : List Instr) : afterCatch ins res
 
 
 /-! ### `raise` -/
-
-/-- the state in which unwinding starts: an exit request is traced -/
-def preRaise (c : Cfg) (k : Kind) : Cfg :=
-  match k with
-  | .exit => { c with tr := .exit :: c.tr }
-  | _ => c
 
 theorem raise_eq (c : Cfg) (k : Kind) : c.raise k = unwind k c.code (preRaise c k) := by
   cases k <;> rfl
